@@ -37,26 +37,104 @@ EAGER = {"list", "sorted", "tuple", "set", "len", "reversed", "zip", "max",
 LAZY_WRAPPERS = {"tqdm", "groupby", "enumerate", "iter", "chain", "islice"}
 
 # (function, local name that carries an outer level of the lazy stream)
+# The variables that carry a lazily grouped stream, per function.  They are
+# identified by *how they are bound*, never by their spelling (parameters by
+# the pinned signature, see core.normalise_params):
+#   "P:<param>"         the parameter <param>
+#   "C:<f>|<g>"         the local bound from a call of f(...) or g(...)
+#   "G"                 the local bound from a generator expression
+#   "T:<sel>/<i>"       element i of the tuple target of the for / comprehension
+#                       that iterates over the variable selected by <sel>
+#                       (looked through groupby(...) / enumerate-free wrappers)
 CHAIN = [
-    ("otel_to_pv", "job_name_group_streams"),
-    ("otel_to_pv", "pv_event_gen"),
-    ("otel_to_pv", "job_id_streams"),
-    ("otel_to_pv", "pv_event_streams"),
-    ("sequence_otel_job_id_streams", "job_id_streams"),
-    ("job_ids_to_eventid_to_otelevent_map", "job_id_streams"),
-    ("handle_save_events", "pv_event_streams"),
-    ("pv_streams_to_puml_files", "pv_streams"),
-    ("pv_streams_to_puml_files", "job_event_gen"),
-    ("pv_to_puml_file", "pv_stream"),
-    ("pv_to_puml_string", "pv_stream"),
-    ("update_and_create_events_from_clustered_pvevents", "clustered_events"),
-    ("get_graph_solutions_from_clustered_events", "clustered_events"),
-    ("wrap_generator_with_tqdm_start_and_end_messages", "generator"),
-    ("otel_to_puml", "pv_streams"),
-    ("SQLDataHolder.stream_data", "job_name_event_generator"),
-    ("SQLDataHolder.stream_data", "job_name_group"),
-    ("SQLDataHolder.stream_data", "otel_event_gen"),
+    ("otel_to_pv", "C:stream_data"),
+    ("otel_to_pv", "G"),
+    ("otel_to_pv", "T:C:stream_data/1"),
+    ("otel_to_pv", "T:G/1"),
+    ("sequence_otel_job_id_streams", "P:job_id_streams"),
+    ("job_ids_to_eventid_to_otelevent_map", "P:job_id_streams"),
+    ("handle_save_events", "P:pv_event_streams"),
+    ("pv_streams_to_puml_files", "P:pv_streams"),
+    ("pv_streams_to_puml_files", "T:P:pv_streams/1"),
+    ("pv_to_puml_file", "P:pv_stream"),
+    ("pv_to_puml_string", "P:pv_stream"),
+    ("update_and_create_events_from_clustered_pvevents", "P:clustered_events"),
+    ("get_graph_solutions_from_clustered_events", "P:clustered_events"),
+    ("wrap_generator_with_tqdm_start_and_end_messages", "P:generator"),
+    ("otel_to_puml", "C:wrap_generator_with_tqdm_start_and_end_messages|"
+                     "otel_to_pv|pv_files_to_pv_streams"),
+    ("SQLDataHolder.stream_data", "C:stream_job_name_batches"),
+    ("SQLDataHolder.stream_data", "T:C:stream_job_name_batches/1"),
+    ("SQLDataHolder.stream_data", "G"),
 ]
+
+
+def chain_var(ctx: Ctx, fi: FuncInfo, sel: str) -> str:
+    """Resolve a selector of the CHAIN table to the name used in ``fi``."""
+    defs = ctx.defs(fi)
+
+    def fail(why: str) -> AnalysisError:
+        return AnalysisError(
+            f"{fi.qualname}: stream variable '{sel}' not found ({why}); the "
+            "lazy stream is carried differently - update the chain table")
+    if sel.startswith("P:"):
+        name = sel[2:]
+        if not defs.is_param(name):
+            raise fail("no such parameter")
+        return name
+    if sel.startswith("C:"):
+        callees = set(sel[2:].split("|"))
+        names = {b.name for bs in defs.bindings.values() for b in bs
+                 if b.kind == "assign" and isinstance(b.value, ast.Call)
+                 and call_name(b.value) in callees
+                 and isinstance(b.target, ast.Name)}
+        if len(names) > 1:
+            # drop pure temporaries: names whose every use is inside the
+            # value bound to another candidate (hoisted argument)
+            def only_feeds_other(n: str) -> bool:
+                loads = [x for x in ast.walk(fi.node) if isinstance(
+                    x, ast.Name) and x.id == n and isinstance(x.ctx, ast.Load)]
+                vals = [b.value for m in names if m != n
+                        for b in defs.of(m) if b.value is not None]
+                return bool(loads) and all(
+                    any(any(y is x for y in ast.walk(v)) for v in vals)
+                    for x in loads)
+            names = {n for n in names if not only_feeds_other(n)}
+        if len(names) != 1:
+            raise fail(f"{len(names)} locals bound from {sorted(callees)}")
+        return names.pop()
+    if sel == "G":
+        names = {b.name for bs in defs.bindings.values() for b in bs
+                 if b.kind == "assign" and isinstance(b.value,
+                                                      ast.GeneratorExp)
+                 and isinstance(b.target, ast.Name)}
+        if len(names) != 1:
+            raise fail(f"{len(names)} locals bound from a generator "
+                       "expression")
+        return names.pop()
+    if sel.startswith("T:"):
+        inner, idx = sel[2:].rsplit("/", 1)
+        src = chain_var(ctx, fi, inner)
+        names = set()
+        for bs in defs.bindings.values():
+            for b in bs:
+                if b.kind not in ("for", "comp") or b.value is None:
+                    continue
+                it = b.value
+                while isinstance(it, ast.Call) and it.args and not isinstance(
+                        it.args[0], ast.Starred):
+                    it = it.args[0]   # groupby(x, ..) / tqdm(x) / list(x) ..
+                if not (isinstance(it, ast.Name) and it.id == src):
+                    continue
+                t = b.target
+                if isinstance(t, (ast.Tuple, ast.List)) and len(t.elts) > int(
+                        idx) and isinstance(t.elts[int(idx)], ast.Name) \
+                        and t.elts[int(idx)].id == b.name:
+                    names.add(b.name)
+        if len(names) != 1:
+            raise fail(f"{len(names)} loop targets over '{src}'")
+        return names.pop()
+    raise fail("bad selector")
 
 
 def check(rep: Report, ctx: Ctx) -> None:
@@ -147,8 +225,9 @@ def r121(rep: Report, ctx: Ctx, sql) -> None:
     s = reads[0].stmt if reads else None
     order2 = [c.nf() for c in s.order_by] if isinstance(s, S.Select) else []
     cmpn = [n for n in ast.walk(rd.node) if isinstance(n, ast.Compare)
-            and isinstance(n.ops[0], ast.NotEq)
-            and unparse(n.comparators[0]).endswith(".job_id")]
+            and len(n.ops) == 1 and isinstance(n.ops[0], ast.NotEq)
+            and (unparse(n.comparators[0]).endswith(".job_id")
+                 or unparse(n.left).endswith(".job_id"))]
     rep.ob("R12.1", "per-trace reader orders by the key it groups on",
            order2[:1] == ["nodes.job_id"] and bool(cmpn), fi=rd,
            node=reads[0].node if reads else rd.node,
@@ -165,8 +244,9 @@ def r122(rep: Report, ctx: Ctx) -> None:
         "update_and_create_events_from_graph_solutions", "stream_data",
         "stream_job_name_batches", "otel_to_pv", "pv_files_to_pv_streams"}
     chain_short = {f.split(".")[-1] for f in chain_funcs}
-    for fname, var in CHAIN:
+    for fname, sel in CHAIN:
         fi = ctx.func(fname)
+        var = chain_var(ctx, fi, sel)
         pm = ctx.index.parents(fi)
         loads = [n for n in ast.walk(fi.node) if isinstance(n, ast.Name)
                  and n.id == var and isinstance(n.ctx, ast.Load)]
@@ -215,13 +295,39 @@ def r122(rep: Report, ctx: Ctx) -> None:
             uses = [n for n in ast.walk(loops[0]) if isinstance(n, ast.Name)
                     and n.id == iv and isinstance(n.ctx, ast.Load)]
             pm = ctx.index.parents(fi)
-            ok = bool(uses) and all(
-                isinstance(pm.get(u), ast.Call) and call_name(pm.get(u))
-                == inner_ok for u in uses)
+            def _callee_of(u: ast.AST) -> Optional[str]:
+                par = pm.get(u)
+                if isinstance(par, ast.keyword):
+                    par = pm.get(par)
+                return call_name(par) if isinstance(par, ast.Call) else None
+            ok = bool(uses) and all(_callee_of(u) == inner_ok for u in uses)
             why = (f"each '{iv}' is handed to {inner_ok}(), which "
                    "materialises it before the next group is requested")
         rep.ob("R12.2", f"{fi.short}: inner groups are consumed in place",
                ok, fi=fi, node=loops[0] if loops else fi.node, detail=why)
+    # a trace that cannot be materialised is skipped on its own: an exception
+    # handler must sit inside the per-trace iteration, never around it
+    jm = ctx.func("job_ids_to_eventid_to_otelevent_map")
+    jv = chain_var(ctx, jm, "P:job_id_streams")
+    for tr in [t for t in ast.walk(jm.node) if isinstance(t, ast.Try)]:
+        if not tr.handlers:
+            continue
+        consumed = [n for st in tr.body for n in ast.walk(st)
+                    if (isinstance(n, (ast.For, ast.comprehension))
+                        and any(isinstance(x, ast.Name) and x.id == jv
+                                for x in ast.walk(n.iter)))
+                    or (isinstance(n, ast.Call) and any(
+                        isinstance(a, ast.Name) and a.id == jv
+                        for a in n.args))]
+        swallowing = [h for h in tr.handlers if not any(
+            isinstance(x, ast.Raise) for st in h.body for x in ast.walk(st))]
+        rep.ob("R12.2", "a broken trace is skipped without ending the "
+               "stream", not (consumed and swallowing), fi=jm, node=tr,
+               detail=("the try statement encloses the iteration over "
+                       f"'{jv}': the first trace that raises ends the "
+                       "generator, every later trace of the workflow is "
+                       "never delivered" if consumed and swallowing else
+                       "the handler is inside the per-trace iteration"))
     conv = ctx.func("convert_otel_event_stream_to_event_id_to_otelevent_map")
     p0 = conv.params()[0]
     loops = [l for l in ast.walk(conv.node) if isinstance(l, ast.For)
@@ -372,8 +478,10 @@ def r124(rep: Report, ctx: Ctx, sql) -> None:
             fe = f.items[0]
             e = fe.elt
             if isinstance(e, S.And) and len(e.items) == 2:
-                name_c = [i for i in e.items if isinstance(i, S.Cmp)
-                          and i.op == "==" and isinstance(i.left, S.Col)
+                name_c = [i.col_left() for i in e.items
+                          if isinstance(i, S.Cmp)]
+                name_c = [i for i in name_c
+                          if i.op == "==" and isinstance(i.left, S.Col)
                           and i.left.nf() == "nodes.job_name"
                           and isinstance(i.right, S.Param)]
                 ids_c = [i for i in e.items if isinstance(i, S.In)
